@@ -34,6 +34,8 @@ fn cfg() -> SimCfg {
         max_steps: 900,
         probe: false,
         age_pending_secs: None,
+        probe_age_secs: None,
+        probe_same_process: false,
     }
 }
 
